@@ -260,6 +260,12 @@ func (f *Frame) execInstr(ins ssa.Instruction, st *State) {
 		st.reach = tFalse
 	case *ssa.Send:
 		u.note("channel send in " + ShortName(f.fn) + " treated as no-op")
+		if f.top {
+			if path := f.ssaPath(x.Chan); path != "" {
+				f.curCallArgs = []*V{f.val(x.X)}
+				f.anchorsAt("send", path, st)
+			}
+		}
 	case *ssa.Select:
 		f.execSelect(x, st)
 	default:
@@ -569,7 +575,16 @@ func (f *Frame) execSlice(x *ssa.Slice, st *State) {
 			mx = f.val(x.Max).T
 		}
 		f.nopanic(st, "slice", x.Pos(), and(app(SBool, "<=", intLit(0), lo), app(SBool, "<=", lo, hi), app(SBool, "<=", hi, mx), app(SBool, "<=", mx, base.Sl.Cap)), "slice bounds in range")
-		f.set(x, u.nameVal(x.Name(), &V{Typ: x.Type(), Sl: &SliceParts{base.Sl.Arr, app(SInt, "+", base.Sl.Off, lo), app(SInt, "-", hi, lo), app(SInt, "-", mx, lo)}}))
+		nv := u.nameVal(x.Name(), &V{Typ: x.Type(), Sl: &SliceParts{base.Sl.Arr, app(SInt, "+", base.Sl.Off, lo), app(SInt, "-", hi, lo), app(SInt, "-", mx, lo)}})
+		if lo.S != "0" {
+			// position k of the new slice is position lo+k of the old one: stated with the position symbol, so
+			// that facts quantified over positions of the old slice are instantiated for elements of the new one
+			a, b := u.sidx(nv.Sl.Off, T{"k!s", SInt}), u.sidx(base.Sl.Off, app(SInt, "+", lo, T{"k!s", SInt}))
+			if strings.HasPrefix(a.S, "(sidx") {
+				u.assume(st, T{fmt.Sprintf("(forall ((k!s Int)) (! (= %s %s) :pattern (%s)))", a.S, b.S, a.S), SBool})
+			}
+		}
+		f.set(x, nv)
 	case *types.Pointer:
 		at := bt.Elem().Underlying().(*types.Array)
 		n := intLit(at.Len())
@@ -744,6 +759,18 @@ func (f *Frame) execSelect(x *ssa.Select, st *State) {
 		vs = append(vs, u.freshVal(st, tup.At(i).Type(), "recv"))
 	}
 	u.note("select in " + ShortName(f.fn) + " is a nondeterministic choice; received values are arbitrary")
+	// `assert@send <channel>#n : ...` is evaluated for every send case of the select (callarg0 = the value that
+	// would be sent), in the state in which the select is entered
+	if f.top {
+		for _, sst := range x.States {
+			if sst.Dir == types.SendOnly && sst.Send != nil {
+				if path := f.ssaPath(sst.Chan); path != "" {
+					f.curCallArgs = []*V{f.val(sst.Send)}
+					f.anchorsAt("send", path, st)
+				}
+			}
+		}
+	}
 	f.set(x, &V{Typ: x.Type(), F: vs})
 }
 
